@@ -353,6 +353,140 @@ pub fn sc_var_read_any(input: &[u8]) -> u32 {
     0
 }
 
+/// sink writing through a reference, so that a SerializationContext can be forgotten (its State
+/// holds hashbrown tables whose drop glue is very expensive for CBMC) and the bytes still read
+pub struct RecRef<'a>(pub &'a mut Rec);
+
+impl<'a> BinaryOutput for RecRef<'a> {
+    fn write_u8(&mut self, value: u8) {
+        self.0.write_u8(value)
+    }
+    fn write_bytes(&mut self, bytes: &[u8]) {
+        self.0.write_bytes(bytes)
+    }
+}
+
+// ------------------------------------------------------------------ char (E8 twins)
+/// contract of `impl BinarySerializer for char`: Ok iff code point <= 0xFFFF, then exactly the
+/// big-endian UTF-16 unit; otherwise Err(UnsupportedCharacter(c)) 
+pub fn sc_char_ser(input: &[u8]) -> u32 {
+    if input.len() < 4 {
+        return 0;
+    }
+    let code = ref_be(input, 4) as u32;
+    let c = match char::from_u32(code) {
+        Some(c) => c,
+        None => return 0,
+    };
+    let mut rec = Rec::new();
+    let r = {
+        let mut ctx = std::mem::ManuallyDrop::new(desert_core::SerializationContext::new(RecRef(&mut rec)));
+        desert_core::BinarySerializer::serialize(&c, &mut *ctx)
+    };
+    if code <= 0xFFFF {
+        if r.is_err() {
+            return 1;
+        }
+        if rec.n != 2 || rec.buf[0] != (code >> 8) as u8 || rec.buf[1] != code as u8 {
+            return 2;
+        }
+    } else {
+        match r {
+            Err(Error::UnsupportedCharacter(x)) if x == c => {}
+            _ => return 3,
+        }
+    }
+    0
+}
+
+/// contract of `impl BinaryDeserializer for char`: < 2 bytes -> Err; surrogate unit -> Err;
+/// otherwise the scalar value, 2 bytes consumed
+pub fn sc_char_de(input: &[u8]) -> u32 {
+    let mut c = std::mem::ManuallyDrop::new(DeserializationContext::new(input));
+    let r = <char as BinaryDeserializer>::deserialize(&mut *c);
+    if input.len() < 2 {
+        return if r.is_err() { 0 } else { 1 };
+    }
+    let unit = ((input[0] as u32) << 8) | input[1] as u32;
+    if unit >= 0xD800 && unit <= 0xDFFF {
+        return if r.is_err() { 0 } else { 2 };
+    }
+    match r {
+        Ok(ch) if ch as u32 == unit => {}
+        _ => return 3,
+    }
+    // exactly two bytes consumed
+    let nx = c.read_u8();
+    if input.len() == 2 {
+        if !is_eof(&nx) {
+            return 4;
+        }
+    } else {
+        match nx {
+            Ok(b) if b == input[2] => {}
+            _ => return 4,
+        }
+    }
+    0
+}
+
+/// contract of `impl BinaryDeserializer for Duration` (dec in specs/unit_de.rs.in): < 12 bytes ->
+/// Err; nanos carry into the seconds; carry past u64::MAX -> Err; never a panic
+pub fn sc_duration_de(input: &[u8]) -> u32 {
+    let mut c = std::mem::ManuallyDrop::new(DeserializationContext::new(input));
+    let r = <std::time::Duration as BinaryDeserializer>::deserialize(&mut *c);
+    if input.len() < 12 {
+        return if r.is_err() { 0 } else { 1 };
+    }
+    let secs = ref_be(input, 8);
+    let nanos = ref_be(&input[8..], 4);
+    let total = secs + nanos / 1_000_000_000;
+    if total > u64::MAX as u128 {
+        return if r.is_err() { 0 } else { 2 };
+    }
+    match r {
+        Ok(d) => {
+            if d.as_secs() as u128 != total || d.subsec_nanos() as u128 != nanos % 1_000_000_000 {
+                return 3;
+            }
+        }
+        Err(_) => return 4,
+    }
+    let nx = c.read_u8();
+    if input.len() == 12 {
+        if !is_eof(&nx) {
+            return 5;
+        }
+    } else {
+        match nx {
+            Ok(b) if b == input[12] => {}
+            _ => return 5,
+        }
+    }
+    0
+}
+
+/// AdtSerializer::new (E8, iterator chain): writes the version byte and nothing else; covered for
+/// the version-0 metadata reachable through the public tuple codec: serialize((u8,u8)) == [0,a,b]
+pub fn sc_tuple2_bytes(input: &[u8]) -> u32 {
+    if input.len() < 2 {
+        return 0;
+    }
+    let v = (input[0], input[1]);
+    let mut rec = Rec::new();
+    let r = {
+        let mut ctx = std::mem::ManuallyDrop::new(desert_core::SerializationContext::new(RecRef(&mut rec)));
+        desert_core::BinarySerializer::serialize(&v, &mut *ctx)
+    };
+    if r.is_err() {
+        return 1;
+    }
+    if rec.n != 3 || rec.buf[0] != 0 || rec.buf[1] != input[0] || rec.buf[2] != input[1] {
+        return 2;
+    }
+    0
+}
+
 pub type Scenario = fn(&[u8]) -> u32;
 
 /// name, function, input length the harness quantifies over, description
@@ -380,6 +514,10 @@ pub const SCENARIOS: &[(&str, Scenario, usize, &str)] = &[
     ("read_owned", sc_read_owned, 9, "read_u16/read_u64 contract on OwnedInput, lengths 0..=9"),
     ("var_u32", sc_var_u32, 4, "write_var_u32 == LEB128, minimal, continuation bits; read back on 2 sources; all 2^32 values"),
     ("var_i32", sc_var_i32, 4, "write_var_i32 == LEB128(zigzag); read back; all 2^32 values"),
+    ("char_ser", sc_char_ser, 4, "char::serialize contract for every Unicode scalar value"),
+    ("char_de", sc_char_de, 3, "char::deserialize contract on all inputs of length 0..=3"),
+    ("duration_de", sc_duration_de, 13, "Duration::deserialize contract on all inputs of length 0..=13 (no panic on carry overflow)"),
+    ("tuple2_bytes", sc_tuple2_bytes, 2, "serialize((u8,u8)) == [0,a,b] for all a,b"),
     ("var_read_any", sc_var_read_any, 6, "read_var_u32 == lenient reference reader on all inputs of length 0..=6"),
 ];
 
